@@ -135,6 +135,7 @@ func ruleEval(c *Ctx, mode string) *RuleResult {
 		x.gaps = agg.gaps
 		return x
 	}
+	var pendingViol [][3]string
 	report := func(nt string, problems []string, nruns, npaths int, okDetail string) {
 		r.Instances++
 		cl := c.A.ExecSw.clause(nt)
@@ -159,7 +160,19 @@ func ruleEval(c *Ctx, mode string) *RuleResult {
 		if n > 5 {
 			uniq = append(uniq[:5], fmt.Sprintf("… %d more", n-5))
 		}
-		r.viol(key, pos, fname(c.A.Exec), fmt.Sprintf("%s deviates from the specification: %s", nt, strings.Join(uniq, "; ")))
+		pendingViol = append(pendingViol, [3]string{key, pos, fmt.Sprintf("%s deviates from the specification: %s", nt, strings.Join(uniq, "; "))})
+	}
+	// flushed at the end: a deviation found while some construct had no transfer
+	// function is not a verdict (values that passed through it are unknown)
+	flushViol := func() {
+		for _, pv := range pendingViol {
+			if len(agg.gaps) > 0 {
+				r.undecided(pv[0], pv[1], fname(c.A.Exec), pv[2]+" — not decided: the interpretation met constructs it has no transfer function for")
+			} else {
+				r.viol(pv[0], pv[1], fname(c.A.Exec), pv[2])
+			}
+		}
+		pendingViol = nil
 	}
 
 	atoms := uni.each()
@@ -771,6 +784,7 @@ func ruleEval(c *Ctx, mode string) *RuleResult {
 		r.Instances++
 		r.undecided("clause|"+m, c.pos(c.A.Exec.Pos()), fname(c.A.Exec), "the evaluator has a case the specification table of this rule does not know")
 	}
+	flushViol()
 	c.reportEvents(r, agg, "K-EVAL/"+mode)
 	return r
 }
